@@ -158,7 +158,7 @@ def run(tier, seed, replay=None):
                 nrm2 = float(np.sum(np.abs(At.numpy().astype(np.complex128)) ** 2))
                 tol_id = (1e-4 if dtype in (torch.float32, torch.complex64) else 1e-10) * nrm2 + 1e-300
                 n_identity += 1
-                if abs(err2 - disc) > tol_id:
+                if not (abs(err2 - disc) <= tol_id):
                     V.fail("squared error differs from the sum of the discarded energies [%s]" % family, dict(desc, err2=err2, discarded=disc, R=Rk))
             # the model's sweep_cores / stage relations on the implementation's own SVD factors (tensors only): core k is the reshaped kept
             # factor, the next remainder is diag(s) v, the last core is the final remainder; the oracle hypotheses (orthonormal U, U^H C = S V)
@@ -176,10 +176,10 @@ def run(tier, seed, replay=None):
                         V.fail("correspondence(model/impl): remainder of bond %d is not the reshaped diag(s) v of the previous bond (stage_next)" % k_, desc, failing_input=False); break
                     prev = torch.diag(s__[:r_]) @ v_[:r_, :]
                     uk = u_[:, :r_]
-                    if float((uk.conj().T @ uk - torch.eye(r_, dtype=uk.dtype)).abs().max()) > htol:
+                    if not (float((uk.conj().T @ uk - torch.eye(r_, dtype=uk.dtype)).abs().max()) <= htol):
                         V.fail("hypothesis orth_stages: the kept left factor is not orthonormal [%s]" % family, dict(desc, bond=k_)); break
                     cn = float(Cm.abs().pow(2).sum().sqrt())
-                    if float((uk.conj().T @ Cm - prev).abs().pow(2).sum().sqrt()) > 100 * htol * cn + 1e-300:
+                    if not (float((uk.conj().T @ Cm - prev).abs().pow(2).sum().sqrt()) <= 100 * htol * cn + 1e-300):
                         V.fail("hypothesis spectrum_link: U^H C differs from diag(s) v [%s]" % family, dict(desc, bond=k_)); break
                 else:
                     if not close(x.cores[-1], prev.reshape(Rk[-2], Nk[-1], 1)):
@@ -191,7 +191,7 @@ def run(tier, seed, replay=None):
             for (s, eps_arg, r) in rec:
                 nrm = float(np.linalg.norm(s.astype(np.float64)))
                 want = eps / math.sqrt(d - 1) * nrm if d > 1 else None
-                if want is not None and abs(eps_arg - want) > 1e-6 * max(want, 1e-300) + 1e-300:
+                if want is not None and not (abs(eps_arg - want) <= 1e-6 * max(want, 1e-300) + 1e-300):
                     V.fail("threshold passed to rank_chop is not eps/sqrt(d-1)*||s|| [%s]" % family, dict(desc, eps_arg=eps_arg, expected=want))
                 q, thr2, margin = exact_scaled(s, eps_arg)
                 if margin < tol:
@@ -357,9 +357,9 @@ def check_property(A, At, x, shape, eps, rmax, dtype, torch):
     err = float(np.linalg.norm((full - ref).astype(np.complex128)))
     binding = rm is not None and any(R[k] == rm[k] for k in range(1, d))
     slack = (2e-5 if f32 else 1e-12) * nrm
-    if d > 1 and not binding and err > eps * nrm * (1 + 1e-9) + slack:
+    if not (d <= 1) and not binding and not (err <= eps * nrm * (1 + 1e-9) + slack):
         fails.append("accuracy: ||A - full|| = %.6g > eps ||A|| = %.6g (rel %.4g, eps %.4g)" % (err, eps * nrm, err / max(nrm, 1e-300), eps))
-    if d == 1 and err > slack:
+    if d == 1 and not (err <= slack):
         fails.append("accuracy: order-1 input not reproduced")
     # rank <= exact unfolding rank (for eps above round-off level), on the array the decomposition works on
     if eps >= (1e-4 if f32 else 1e-9) and d > 1 and not f32:
